@@ -260,3 +260,13 @@ Print Assumptions C04_timechart_partition.
 Example C04_bucket_guard_satisfiable :
   find_bucket 1700000000000 1700000010000 4000 1700000009999 = Some 1700000008000.
 Proof. reflexivity. Qed.
+
+(* ---- tie by translation: the Gallina definition regenerated from timechartagg.go by gotrans on
+   every run is the model's find_bucket (any edit that changes FindTimeRangeBucket's meaning
+   breaks this obligation) ---- *)
+From SigG Require Import Gen.
+From SigP Require Import GenC04.
+Theorem C04_code_FindTimeRangeBucket_is_model : forall s e st ts, (0 < st)%Z ->
+  Bucket.find_bucket s e st ts = Some (gen_FindTimeRangeBucket e s st ts).
+Proof. exact gen_FindTimeRangeBucket_is_model. Qed.
+Print Assumptions C04_code_FindTimeRangeBucket_is_model.
